@@ -18,10 +18,10 @@ CONFIG = {
     "id": "C13",
     "rule": ("all sequences of length <= 4 (quick) / <= 5 (thorough) over 4 values per kind (ints, floats, words, numeric "
              "strings, words with shared prefixes and case differences, numeric-looking text such as '10' and '9', ints "
-             "mixed with floats, values equal across types 1/1.0/true/'1') plus null, under max/min/unique/distinct x "
+             "mixed with floats, values equal across types 1/1.0/true/'1', values Python calls false 0/0.0/false/''/-1) plus null, under max/min/unique/distinct x "
              "inversion x parameter absent/present; all Array-of-Hashes and hash-of-hashes of <= 3 (quick) / <= 4 records "
              "whose attribute is drawn from {1, 2, 3, null, absent}, {abc, abd, b, null, absent}, {1.5, 2.5, 2.50, null, "
-             "absent} or {1, 1.0, true, '10', Abc} under the same keywords and has_child x inversion x attribute "
+             "absent}, {1, 1.0, true, '10', Abc} or {0, 0.0, false, '', 4, -1} under the same keywords and has_child x inversion x attribute "
              "named/missing/other; has_child over hashes, lists, nulls, scalars, anchored children (&name form); parent(n) and "
              "name() at every node of nested documents (reached by key/index paths and by ** and * traversals) for "
              "n in -1..depth+1, non-integer and surplus parameters; mixed-kind and container members, unhashable "
@@ -503,7 +503,7 @@ CROSS = ["1", "1.0", "true", "'1'"]
 
 
 def seq_cases(maxlen):
-    for kind in (INTS, FLOATS, WORDS, NUMTEXT, WORDS2, NUMTEXT2, MIXNUM, CROSS):
+    for kind in (INTS, FLOATS, WORDS, NUMTEXT, WORDS2, NUMTEXT2, MIXNUM, CROSS, FALSY):
         pool = kind + ["~"]
         for n in range(0, maxlen + 1):
             for tup in itertools.product(pool, repeat=n):
@@ -522,10 +522,13 @@ ATTRS = ["p: 1", "p: 2", "p: 3", "p: ~", "q: 1"]
 ATTRS_S = ["p: abc", "p: abd", "p: ~", "q: 1", "p: b"]
 ATTRS_F = ["p: 1.5", "p: 2.5", "p: 2.50", "p: ~", "q: 1"]
 ATTRS_X = ["p: 1", "p: 1.0", "p: true", "p: '10'", "p: Abc"]
+# values that Python calls false (0, 0.0, false, the empty text) are values like any other: present, compared
+ATTRS_Z = ["p: 0", "p: 0.0", "p: false", "p: ''", "p: 4", "p: -1"]
+FALSY = ["0", "0.0", "false", "''", "-1"]
 
 
 def rec_cases(maxlen):
-    for pool in (ATTRS, ATTRS_S, ATTRS_F, ATTRS_X):
+    for pool in (ATTRS, ATTRS_S, ATTRS_F, ATTRS_X, ATTRS_Z):
         for n in range(0, maxlen + 1):
             for tup in itertools.product(pool, repeat=n):
                 aoh = "[%s]" % ", ".join("{%s, id: %d}" % (a, i) for i, a in enumerate(tup))
